@@ -260,12 +260,19 @@ func WindowFrameSet(partition Partition, expr parser.AnalyticClause) []WindowFra
 		case parser.PRECEDING:
 			if !framePosition.Unbounded.IsEmpty() {
 				idx = 0
+			} else if current < framePosition.Offset {
+				// Every position before the partition is the same to the callers, which skip the positions
+				// outside the partition one by one: the offset must not decide how many they skip or allocate.
+				idx = -1
 			} else {
 				idx = current - framePosition.Offset
 			}
 		case parser.FOLLOWING:
 			if !framePosition.Unbounded.IsEmpty() {
 				idx = length - 1
+			} else if length-current <= framePosition.Offset {
+				// likewise for the positions after the partition; the sum could overflow as well
+				idx = length
 			} else {
 				idx = current + framePosition.Offset
 			}
